@@ -882,6 +882,7 @@ func (g *gen) runGenerated(c *Case) {
 	nops := 4 + r.Intn(11)
 	stopped := make([]bool, len(c.Svcs))
 	zeroSize := false
+	_ = zeroSize
 	for i := 0; i < nops && rn.b.trouble == ""; i++ {
 		s := r.Intn(len(c.Svcs))
 		var o Op
@@ -899,7 +900,7 @@ func (g *gen) runGenerated(c *Case) {
 			// very large requests only in well-formed scripts (the monitors' fast paths need whole rows)
 			cols, sz, rows, _ := g.request(c.Svcs[s].Kind, malformed && r.Intn(3) == 0, !malformed)
 			if kc := cols[keycol[c.Svcs[s].Kind]]; sz <= 0 && len(expand(kc)) > 0 {
-				zeroSize = true // accepted (key column not empty) but accounted with size 0: legitimately never flushed
+				zeroSize = true // accepted (key column not empty) but accounted with size 0: flushed all the same since the fix of swapBuffers
 			}
 			o = Op{T: "req", S: s, P: rn.nextP, Cols: cols, Sz: sz}
 			rn.nextP++
@@ -954,7 +955,7 @@ func (g *gen) runGenerated(c *Case) {
 			}
 		}
 		if !busy {
-			c.Drained = !anyStop && !zeroSize
+			c.Drained = !anyStop
 			break
 		}
 	}
